@@ -35,7 +35,7 @@ class Reject(Exception):
 
 
 def cases(tier):
-    return 15000 if tier == "quick" else 200000
+    return 15000 if tier == "quick" else 1000000
 
 
 def small_elem(rng, kind, i=0):
